@@ -221,6 +221,7 @@ struct Cell {
   const char* props;  // comma separated property ids this cell serves
   unsigned weight;
   CellFn fn;
+  bool raw = false;  // the cell manages fault::Scheduler instances itself (runs on the process stack)
 };
 
 inline std::vector<Cell>& Cells() {
@@ -229,8 +230,8 @@ inline std::vector<Cell>& Cells() {
 }
 
 struct Registrar {
-  Registrar(const char* name, const char* props, unsigned weight, CellFn fn) {
-    Cells().push_back({name, props, weight, fn});
+  Registrar(const char* name, const char* props, unsigned weight, CellFn fn, bool raw = false) {
+    Cells().push_back({name, props, weight, fn, raw});
   }
 };
 
@@ -239,6 +240,11 @@ struct Registrar {
 #define VF_CELL(ident, name, props, weight)                                                                            \
   static void VF_CAT(vf_cell_, ident)(::vf::Ctx & ctx);                                                                \
   static ::vf::Registrar VF_CAT(vf_reg_, ident){name, props, weight, &VF_CAT(vf_cell_, ident)};                        \
+  static void VF_CAT(vf_cell_, ident)(::vf::Ctx & ctx)
+
+#define VF_CELL_RAW(ident, name, props, weight)                                                                        \
+  static void VF_CAT(vf_cell_, ident)(::vf::Ctx & ctx);                                                                \
+  static ::vf::Registrar VF_CAT(vf_reg_, ident){name, props, weight, &VF_CAT(vf_cell_, ident), true};                  \
   static void VF_CAT(vf_cell_, ident)(::vf::Ctx & ctx)
 
 inline bool HasProp(const char* props, const char* p) noexcept {
@@ -486,6 +492,7 @@ struct Trace {
 };
 
 inline Trace g_trace;
+inline void (*g_raw_hook)(u64 fiber_id, u64 time_ns) = nullptr;  // replaces ResumeHook (families with raw cells)
 inline void (*g_trace_sink)(u64 norm_id, u64 time_ns) = nullptr;  // optional full trace consumer (C17)
 
 [[noreturn]] inline void ChildExit(int code) noexcept {
@@ -776,7 +783,16 @@ inline CaseResult Execute(const Cell& cell, int cell_id, u64 idx, int pass, bool
 #endif
   CaseResult res;
 #if VF_FIBER
-  {
+  if (cell.raw) {
+    g_trace.Reset();
+    long bal0 = g_news.load(kRlx) - g_deletes.load(kRlx);
+    try {
+      cell.fn(ctx);
+    } catch (...) {
+      ctx.Fail("harness-exception", "", "exception escaped the scenario body");
+    }
+    res.alloc_delta = (g_news.load(kRlx) - g_deletes.load(kRlx)) - bal0;
+  } else {
     yaclib::fault::Scheduler sched;
     yaclib::fault::Scheduler::Set(&sched);
     ApplyParams(ctx.p);
@@ -1269,7 +1285,7 @@ inline int Main(int argc, char** argv, const char* family) {
 #if VF_FIBER
   yaclib::fiber::SetStackSize(64);
   yaclib::fiber::SetHardwareConcurrency(4);
-  yaclib::fault::SetVerifResumeHook(&ResumeHook);
+  yaclib::fault::SetVerifResumeHook(g_raw_hook != nullptr ? g_raw_hook : &ResumeHook);
 #endif
 
   if (g_cfg.one) {
